@@ -43,7 +43,7 @@ func unpack(cfg *ucfg.Config, to interface{}, opts []ucfg.Option) (err error, pa
 }
 
 func runCase(c Case, r *runlog.R) error {
-	if c.T == nil || c.T.Kind != "struct" || c.Cfg == nil || c.Cfg.K != "obj" {
+	if c.T == nil || c.T.Shape().Kind != "struct" || leafBase(c.T) != "" || c.P == nil || c.Cfg == nil || c.Cfg.K != "obj" {
 		return fmt.Errorf("harness: malformed case")
 	}
 	opts, err := policyOpts(c.Global)
@@ -143,6 +143,7 @@ func runCase(c Case, r *runlog.R) error {
 		}
 	}
 	r.NonTrivialIf(nMentioned >= 1 && nUntouched >= 1)
+	r.ClassIf(c.T.Kind != "struct", "target is a catalogue struct with methods")
 	r.ClassIf(nMentioned == 0, "no setting mentioned")
 	r.ClassIf(nMentioned >= 4, "four or more settings mentioned")
 	r.ClassIf(nUntouched >= 1, "unmentioned non-zero field")
@@ -155,7 +156,7 @@ func runCase(c Case, r *runlog.R) error {
 
 var subUnpack = runlog.Register(&runlog.Sub[Case]{
 	Name: "prefilled-unpack",
-	Rule: "random struct type (reflect.StructOf over all primitive kinds, named variants, durations, regexps, pointers, slices, arrays, maps, nested and inline structs; ignored and unexported fields; replace/append/prepend/merge tags at any depth; catalogue types with InitDefaults, Validate and Unpack methods), a pre-filled value, a configuration built from the type that mentions a random subset of the fields (valid settings of the right shape; nil settings count as not mentioned; settings under the names of ignored/unexported fields), a global policy option, and in 30% of the cases one injected fault (unconvertible setting, wrong shape, failing Validate of a primitive or of a struct after all its fields, failing Unpacker, failing validate tag on a mentioned or an absent field) at a position biased to late fields. On success the target must equal the expectation built from the pre-filled value, the type's own InitDefaults, every mentioned primitive unpacked alone into a fresh zero target, and the list policy in force (unmentioned parts bit for bit); on error the struct must hold its previous values (maps and pointees by identity only); without a fault Unpack must succeed. Non-trivial: at least one mentioned primitive setting and at least one unmentioned field with a non-zero pre-filled value, or Unpack failed at an injected fault that is processed after at least one mentioned setting. Distinct: hash of the whole case.",
+	Rule: "random struct type (reflect.StructOf over all primitive kinds, named variants, durations, regexps, pointers, slices, arrays, maps, nested and inline structs; ignored and unexported fields; replace/append/prepend/merge tags at any depth; catalogue types with InitDefaults, Validate and Unpack methods; in 1 of 8 cases the target itself is a catalogue struct with InitDefaults and Validate), a pre-filled value, a configuration built from the type that mentions a random subset of the fields (valid settings of the right shape; nil settings count as not mentioned; settings under the names of ignored/unexported fields), a global policy option, and in 30% of the cases one injected fault (unconvertible setting, wrong shape, failing Validate of a primitive or of a struct after all its fields, failing Unpacker, failing validate tag on a mentioned or an absent field) at a position biased to late fields. On success the target must equal the expectation built from the pre-filled value, the type's own InitDefaults, every mentioned primitive unpacked alone into a fresh zero target, and the list policy in force (unmentioned parts bit for bit); on error the struct must hold its previous values (maps and pointees by identity only); without a fault Unpack must succeed. Non-trivial: at least one mentioned primitive setting and at least one unmentioned field with a non-zero pre-filled value, or Unpack failed at an injected fault that is processed after at least one mentioned setting. Distinct: hash of the whole case.",
 	Gen:  genCase,
 	Run:  runCase,
 })
